@@ -3,10 +3,28 @@
 #pragma once
 #include "common.hpp"
 
+// Environment stub (DESIGN 2.3): contract-level replacement of libstdc++'s std::rotate (its random-access implementation - gcd
+// cycles with nested symbolic loops - does not finish in symbolic execution).  Same result: every element of [middle, last) is
+// moved left over [first, middle), one position at a time, with the element type's own move operations.  amc uses std::rotate
+// to bring elements appended at the end into place (insert of a single-pass range, insert of possibly-throwing copies).
+namespace std {
+template <class It> It vf_rotate(It first, It middle, It last) {
+  It ret = first + (last - middle);
+  for (It m = middle; m != last; ++m)
+    for (It j = m; j != first + (m - middle); --j) { auto t = std::move(*j); *j = std::move(*(j - 1)); *(j - 1) = std::move(t); }
+  return ret;
+}
+}
+#ifndef VF_REAL_ROTATE
+#define rotate vf_rotate
+#endif
 #include <amc/allocator.hpp>
 #include <amc/fixedcapacityvector.hpp>
 #include <amc/smallvector.hpp>
 #include <amc/vector.hpp>
+#ifndef VF_REAL_ROTATE
+#undef rotate
+#endif
 
 namespace vf {
 
@@ -283,6 +301,12 @@ template <class C> struct Ctx {
       vf_assert(w.data() == data0, 5004);
       vf_assert(g_alloc_calls == alloc0, 5001);
     }
+#ifdef VF_RELOC
+    // C14: the byte-relocated container has the same contents, supports the operation and keeps its ledgers balanced
+    if (exc == EXC_NONE) check_contents_as<14000>(m);
+    vf_assert(g_bad == 0 && g_abad == 0, 14005);
+    if (Elem<E>::ledger) vf_assert(alive_count() == pv->size() + extraAlive, 14005);
+#endif
 #if defined(VF_FAULTS) || defined(VF_USABLE)
     if (exc != EXC_NONE) usable();   // only where an exception can really occur (keeps the other queries small)
 #endif
@@ -302,6 +326,9 @@ template <class C> struct Ctx {
     vf_assert(g_abad == 0, 6001);
     if (Elem<E>::ledger) vf_assert(alive_count() == 0, 2004);
     vf_assert(blocks_live() == 0, 6004);
+#ifdef VF_RELOC
+    vf_assert(g_bad == 0 && g_abad == 0 && blocks_live() == 0 && (!Elem<E>::ledger || alive_count() == 0), 14006);   // destroys cleanly
+#endif
   }
 };
 
